@@ -616,6 +616,9 @@ def draw_change(rng, tree):
     t = n['t']
     bad = rng.random() < 0.04
     props = []
+
+    def pv(x):
+        return fj(x) if isinstance(x, float) else x
     if t in ('double', 'scaled'):
         r = rng.random()
         lo, hi = _f(n['min']), _f(n['max'])
@@ -628,13 +631,18 @@ def draw_change(rng, tree):
                 pts = [k1 * sc, k2 * sc]
             if bad and pts[0] != pts[1]:
                 pts = pts[::-1]
+            if t == 'double' and rng.random() < 0.3:
+                # a float property takes integers as well (FloatRange.validate: value += 0.0)
+                pts = [int(x) if float(x).is_integer() and abs(x) < 2 ** 53 else x for x in pts]
             which = rng.random()
-            if which < 0.4 and pts[0] <= hi:
-                props = [['min', fj(pts[0])]]
+            if rng.random() < 0.03:
+                props = [[rng.choice(['min', 'max']), '5']]          # a string is refused
+            elif which < 0.4 and pts[0] <= hi:
+                props = [['min', pv(pts[0])]]
             elif which < 0.8 and lo <= pts[1]:
-                props = [['max', fj(pts[1])]]
+                props = [['max', pv(pts[1])]]
             else:
-                props = [['min', fj(pts[0])], ['max', fj(pts[1])]]
+                props = [['min', pv(pts[0])], ['max', pv(pts[1])]]
                 if rng.random() < 0.5:
                     props.reverse()
         elif r < 0.75:
